@@ -13,6 +13,7 @@ TEMPLATES = [
     ("elem", {"A": ["M"], "B": ["M"], "Z": ["M"]}, ["Z[m] = A[m] * B[m]"]),
     ("matvec", {"A": ["M", "K"], "B": ["K"], "Z": ["M"]}, ["Z[m] = A[m, k] * B[k]"]),
     ("three", {"A": ["K", "M"], "B": ["K", "N"], "C": ["M", "N"], "Z": ["M", "N"]}, ["Z[m, n] = A[k, m] * B[k, n] * C[m, n]"]),
+    ("elem3", {"A": ["M"], "B": ["M"], "C": ["M"], "Z": ["M"]}, ["Z[m] = A[m] * B[m] * C[m]"]),
     ("sum", {"A": ["M"], "B": ["M"], "Z": ["M"]}, ["Z[m] = A[m] + B[m]"]),
     ("dot", {"A": ["K"], "B": ["K"], "Z": []}, ["Z[] = A[k] * B[k]"]),
     ("cascade", {"A": ["K", "M"], "B": ["K", "N"], "C": ["N"], "T": ["M", "N"], "Z": ["M"]},
@@ -230,7 +231,9 @@ def gen(rng, force=None):
             if bs:
                 bl.append({"component": "RegFile", "bindings": bs})
         if has_seq and rng.random() < 0.85:
-            k = rng.randint(1, min(len(loop), seq_ranks)) if loop else 0
+            k = min(len(loop), seq_ranks) if loop else 0
+            if k and rng.random() < 0.5:
+                k = rng.randint(1, k)
             if k:
                 meta["sequencer"] = True
                 bl.append({"component": "Seq", "bindings": [{"rank": r} for r in rng.sample(loop, k)]})
